@@ -344,6 +344,7 @@ class FuncContent:
         # `execute as @s`
         if (
             token.string == "@s"
+            and len(self.__commands) >= 2
             and self.__commands[-1] == "as"
             and self.__commands[-2] not in {"rotated", "positioned"}
         ):
@@ -359,6 +360,7 @@ class FuncContent:
         # `run execute`
         if (
             token.string == "execute"
+            and len(self.__commands) >= 2
             and self.__commands[-1] == "run"
             and self.__commands[0] == "execute"
             and self.__commands[-2] != "return"
